@@ -88,7 +88,7 @@ Definition types3 : list ftab := filter (fun t => Nat.eqb (fdim t) 3) all_ftabs.
 Definition pie_pass (m : trim_kind) : list string := map fname (filter (chk_pie m) types3).
 
 Lemma closing_trim_all : forallb (chk_pie TrimClosing) all_ftabs = true.
-Proof. vm_compute. reflexivity. Qed.
+Proof. vm_cast_no_check (eq_refl true). Qed.
 
 (* with `surfaces[3, :-1]` the quadratic prisms get p2 = p0 on their triangular faces: the
    normal is the zero vector and the two end faces are not tested at all *)
